@@ -29,7 +29,7 @@
 (*     Flaw_NoOutput  no_test_output is not part of RuleHash                                            *)
 EXTENDS Integers, Sequences, FiniteSets, TLC, Json
 CONSTANTS Flaw_Provides, Flaw_NoOutput,
-          Base,      \* 0: every base repository; 1..3: only that one
+          Base,      \* 0: every base repository; 1..5: only that one
           Combine,   \* TRUE: also definition edits combined with one changed file
           Emit
 T == 1..5
@@ -94,9 +94,14 @@ AllBases ==
        Def("gen", {}, {}, {2, 3}, {}, 0, FALSE)>>,
      \* 4: a consumer of a provider that itself has dependents
      <<Def("gen", {"f1"}, {}, {}, {}, 0, FALSE),       Def("fg", {"f2"}, {}, {}, {}, 1, FALSE),
-       Def("gen", {"g1"}, {}, {2}, {}, 0, TRUE),       Def("test", {}, {"e2"}, {3}, {}, 0, FALSE),
-       Def("gen", {"r1"}, {}, {3}, {}, 0, FALSE)>> >>
-Bases == IF Base = 0 THEN {AllBases[i] : i \in 1..4} ELSE {AllBases[Base]}
+       Def("gen", {"g1"}, {}, {2}, {}, 0, TRUE),       Def("test", {}, {"e1"}, {3}, {}, 0, FALSE),
+       Def("gen", {"r1"}, {}, {3}, {}, 0, FALSE)>>,
+     \* 5: a filegroup over a directory that provides; one consumer requires it as a source, the test has it as DATA
+     \*    (a data label is never replaced by what it provides), the root target does not require
+     <<Def("gen", {"e1", "D"}, {}, {}, {}, 0, FALSE),  Def("fg", {"D"}, {}, {}, {}, 1, FALSE),
+       Def("gen", {"g1"}, {}, {2}, {}, 0, TRUE),       Def("test", {}, {"f1"}, {}, {2}, 0, TRUE),
+       Def("gen", {"r1"}, {}, {2, 3}, {}, 0, FALSE)>> >>
+Bases == IF Base = 0 THEN {AllBases[i] : i \in 1..5} ELSE {AllBases[Base]}
 
 \* one-field edits of one target's definition
 Toggle(X, x) == IF x \in X THEN X \ {x} ELSE X \cup {x}
